@@ -16,6 +16,16 @@ def gen_knots(rng, nmin=4, nmax=12, positive=False, lo=-600.0, hi=300.0):
         while len(xs) < nmin:
             xs.append(xs[-1] + float(rng.randint(1, 50)))
         xs = [int(x) if rng.random() < 0.5 else x for x in xs]       # whole numbers, some as Python ints
+    if rng.random() < 0.4 and len(xs) >= 3 and float(xs[0]) < 0.0 < float(xs[-1]):
+        # a knot at the peat surface, the datum: exactly 0 (often the only knot below the water levels of interest)
+        inner = [i for i in range(1, len(xs) - 1)]
+        i0 = min(inner, key=lambda i: abs(float(xs[i])))
+        xs[i0] = 0.0 if rng.random() < 0.7 else 0
+        if rng.random() < 0.5:
+            xs = [x for i, x in enumerate(xs) if i in (0, i0) or float(x) > 0.0]      # ... the only interior knot below them
+        xs = sorted(set(xs), key=float)
+        while len(xs) < nmin:
+            xs.append(float(xs[-1]) + rng.uniform(1, 50))
     if positive:
         ys = [10 ** rng.uniform(-6, 6) for _ in xs]
     else:
